@@ -170,18 +170,31 @@ def _g(rng, reps):
 
 @op("count", "argmax_first", "torch.argmax(input, dim=1)", SRC_ACC + ":_multiclass_accuracy_update")
 def _g(rng, reps):
-    # C >= 1.  KNOWN DISAGREEMENT at C = 0 (found by this stream, reported to the coordinator): `torch.argmax` over a zero-sized
-    # dim raises `IndexError: argmax(): Expected reduction dim 1 to have non-zero size` (for every n, also n = 0) whereas
-    # `Count.argmaxFirst [] = 0`.  It IS reachable: `multiclass_accuracy/precision/recall/f1_score(input of shape (n, 0),
-    # num_classes=None)` pass the input check and raise in the real code, while the model answers (1.0 / nan).  The fix belongs
-    # to the callers' adapter (TE/Driver/Count.lean `mcPreds`: reject a 2-D input without columns with IndexError); once it is
-    # in, C >= 1 is the reachable domain of the primitive.  Extend the range of `c` below to 0 when the MODEL PRIMITIVE itself
-    # is changed to raise.
+    # C >= 1 is the reachable domain: `torch.argmax` over a zero-sized dim raises `IndexError: argmax(): Expected reduction dim 1
+    # to have non-zero size` (for every n, also n = 0) whereas `Count.argmaxFirst [] = 0` — this stream found that
+    # `multiclass_accuracy/precision/recall/f1_score(input of shape (n, 0), num_classes=None)` pass the input check and raise in
+    # the real code while the model answered 1.0 / nan.  The callers' adapter now rejects a 2-D input without columns BEFORE the
+    # primitive is consulted (TE/Driver/Count.lean `argmaxGuard`), so `argmaxFirst []` is never evaluated; the end-to-end
+    # behaviour on (n, 0) inputs is pinned by `argmax_zero_columns` below.
     for dt in FD:
         for _ in range(reps):
             n, c = rng.choice([0, 1, 2, 3, 4]), rng.choice([1, 2, 3, 4, 5])
             x = ft([v for _ in range(n) for v in tie_vals(rng, c, GS)], dt, (n, c))
             yield {"input": x}, (lambda x=x: torch.argmax(x, dim=1))
+
+
+@op("count", "argmax_zero_columns", "torch.argmax(input, dim=1) on an (n, 0) input, end to end", SRC_ACC + ":_multiclass_accuracy_update; precision.py / recall.py / f1_score.py:_*_update")
+def _g(rng, reps):
+    # pinned regression (whole functional, not an `op.` request): the real call raises inside `torch.argmax`
+    # (IndexError; RuntimeError where the update is TorchScript) and the model's adapter must raise the same kind.
+    import torcheval.metrics.functional as TF
+    for fn in ("multiclass_accuracy", "multiclass_precision", "multiclass_recall", "multiclass_f1_score"):
+        for dt in FD:
+            for n in (0, 2):
+                for extra in ({"average": "micro"}, {"average": "micro", "num_classes": 0}):
+                    x, y = torch.zeros((n, 0), dtype=dt), it([0] * n)
+                    yield ({"__fn": fn, "input": x, "target": y, **extra},
+                           (lambda fn=fn, x=x, y=y, extra=extra: getattr(TF, fn)(x, y, **extra)))
 
 
 def _index_case(rng, n, m):
@@ -1176,8 +1189,8 @@ def check_ops(rep: Report, families: list[str], reps: int | None = None):
                 kw, thunk = c[0], c[1]
                 cmp = c[2] if len(c) > 2 else cmp_exact
                 kw = dict(kw)
-                req = kw.pop("__op", name)
-                cases.append((name, expr, src, "fn op." + req + " " + enc_args(kw), thunk, cmp))
+                req = kw.pop("__fn", None) or "op." + kw.pop("__op", name)
+                cases.append((name, expr, src, "fn " + req + " " + enc_args(kw), thunk, cmp))
         outs = run_driver([c[3] for c in cases])
         bad: dict = {}
         for (name, expr, src, line, thunk, cmp), o in zip(cases, outs):
